@@ -42,6 +42,16 @@ for d in ("up", "down"):
     H("kani-pure", "c11::c11_prepare_%s_spec" % d, ["C11"], bounds=FULL64, inst="array layouts, symbolic hints", timeout_s=900)
     H("kani-pure", "c11::c11_canary_%s" % d, ["C11"], kind="canary", expect_fail=["CANARY"], bounds=FULL64, inst="deliberately false claim must be refuted")
 
+# ------------------------------------------------------------------------------------------------
+# E-pure: C12 (src/chunk/size_config.rs composed with src/bumping.rs)
+# ------------------------------------------------------------------------------------------------
+C12B = "none: loop-free; any Layout, base-allocator value layout size 0..256 / align 1..256, any MINIMUM_CHUNK_SIZE, any previous chunk size (multiple of 16), any base address and any over-grant, min_align 1..16, all truthful hints"
+for d in ("up", "down"):
+    H("kani-pure", "c12::c12_create_fits_%s" % d, ["C12"], bounds=C12B, inst="direction " + d, timeout_s=1800, mem_gb=2)
+    H("kani-pure", "c12::c12_create_fits_prepare_%s" % d, ["C12"], bounds=C12B, inst="array layouts, prepare variant, direction " + d, timeout_s=1800, mem_gb=2)
+    H("kani-pure", "c12::c12_size_from_hint_%s" % d, ["C12"], bounds=C12B, inst="raw size hint (Bump::with_size / minimum chunk size), direction " + d, timeout_s=900)
+H("kani-pure", "c12::c12_canary_create", ["C12"], kind="canary", expect_fail=["CANARY"], bounds=C12B, inst="deliberately false claim must be refuted")
+
 
 def for_property(pid, tier):
     out = []
